@@ -6,6 +6,11 @@ ALL = ["C%02d" % i for i in range(1, 21)]
 
 # id -> (level category, engine, technique, level text, level note, design ref)
 CLAIMED = {
+ "C13": ("exploration", "E5 exhaustive request enumeration in crash-proof workers",
+         "exhaustive enumeration of request contents over small alphabets (JSON kinds x schema positions, byte prefixes and single-token mutations of JSON/XML documents, all paths / query strings / XPath texts up to a length bound, Go kinds for SetValue), each executed on the real code in worker processes with deadlines",
+         "Against a valid schema (all leaf types, nested and compound-key lists, choice, rpc, notification) holding a non-trivial tree: 19 JSON value kinds substituted at 33 positions of a valid document and every byte prefix and single-token deletion/duplication/substitution of valid JSON and XML documents, each used as Upsert, Insert and Update source; every Find path of <= 3 segments over a 46-segment alphabet from two start selections (what is found is then read); every query parameter x 29 values and all pairs, on root, container, list, entry and notification selections; every XPath text of <= 3 (thorough 4) tokens over a 28-token alphabet as where=, filter= and when; SetValue of 40 Go values and kinds on 13 leaf types. Every request runs in a worker process (stack limit, deadline, crash bisected to the single request): no panic, fatal error or hang; a scalar/array where a container is declared, an object/scalar where a list is declared and a non-object list entry must be errors; keys on non-lists and steps below leaves must be errors; the stored tree must be readable afterwards.",
+         "trusted: worker protocol; request alphabets listed in evidence bounds; two simultaneous mutations not covered",
+         "DESIGN.md section 7 C13"),
  "C14": ("fault_enumeration", "E5 truncation / single-token mutation enumeration in crash-proof workers + E4 opener faults",
          "exhaustive enumeration of truncation points, single-token mutations, parameter sweeps, reference graphs and opener faults, every input loaded by the real parser/compiler in worker processes with deadlines",
          "Corpus = every .yang file in the repository (quick: files up to 700 bytes) plus generated modules covering all statement kinds. For each: every byte prefix; every token deleted, duplicated and substituted by 13 token-class representatives. Sweeps 1..300 of nesting depth (container, list, choice/case, grouping, uses chains, augments), concatenation parts, extension arguments, siblings, identifier length, comments and strings cut at EOF. NUL/non-UTF-8/odd bytes inserted and replaced at every position of a small module. Every reference graph on 3 nodes (64 functions each) for typedefs, groupings (direct and through containers), identities, leafrefs, imports and includes; augment/deviation/leafref/refine/uses-augment targets of every node kind (incl. missing) x 12 deviate forms; ~60 malformed-statement modules; 9 opener behaviours and a reader failing at every 7th byte. Each load runs in a worker process (64 MiB stack limit, 30 s batch deadline, crashes bisected to the single input): the result must be module-or-error, and a returned module must survive a walk over all public accessors and export through the schema browser.",
